@@ -219,6 +219,21 @@ pub fn means(cfg: &mut Cfg, rep: &mut Report) {
             }
         }
     }
+    // the same on data with a large offset and a small spread, where the rounding error of the mean is visible in the moments: a single
+    // routine that computes an order differently from the bulk routine (e.g. without the correction term) then differs in the last bits
+    for (di, data) in [vec![1e9f64 + 0.1, 1e9 + 0.2, 1e9 + 0.4], vec![1e10, 1e10 + 1.0, 1e10 + 3.0], vec![1e8 + 0.3, 1e8 + 0.1, 1e8 + 0.7, 1e8 + 0.2, 1e8 + 0.9], vec![-3e9 - 0.5, -3e9 + 0.25, -3e9 + 0.125, -3e9 - 0.75]].into_iter().enumerate() {
+        let case = format!("means;moments;large_offset#{}={:?}", di, data);
+        if !rep.want(cfg, &case) { continue; }
+        let d: Array1<f64> = Array1::from(data.clone());
+        for p in 0..=10u16 {
+            let bulk: Vec<f64> = d.central_moments(p).unwrap();
+            for k in 0..=p {
+                let single: f64 = d.central_moment(k).unwrap();
+                if bulk[k as usize].to_bits() != single.to_bits() { rep.fail_p(cfg, &case, "C18", "central_moments(p)[k] differs from central_moment(k)", json!({"p": p, "k": k, "bulk": bulk[k as usize], "single": single})); }
+            }
+        }
+        rep.eval(&case, true);
+    }
     // harmonic / geometric mean against their definitions (float: tolerance 1e-12 relative - accuracy itself is not decided here)
     for v in [vec![1.0f64, 2.0, 4.0], vec![0.5, 0.25], vec![3.0], vec![1e-3, 1e3, 7.0, 2.0]] {
         let a = Array1::from(v.clone());
